@@ -10,7 +10,10 @@
 (*         instance); for a = media the observed lists js / all / print    *)
 (*         (file ids; 99 = a file nobody declared; other = number of       *)
 (*         unexpected css media types), for a pair the class whose text    *)
-(*         came back (src, kind) and whose file name `<a>_file` returned.  *)
+(*         came back (src, kind; val = text | empty | ws | none: a blank   *)
+(*         text is a value) and whose file name `<a>_file` returned; for   *)
+(*         a = render the classes whose template / script / style texts    *)
+(*         the rendered document contains (rtpl, rjs, rcss: RCode values). *)
 (* Every event must be explained by the MediaInherit action of the same    *)
 (* name, and the observation must satisfy what the specification           *)
 (* determines (named clauses).  An observation MediaInherit rejects is     *)
@@ -43,7 +46,8 @@ NextTrace == /\ tid' = tid + 1 /\ l' = 1 /\ phase' = "step"
 SpecAction(e) ==
   CASE e.op = "create" -> UNCHANGED <<kase, memo, ret>>
     [] e.op = "access" /\ e.a = "media" -> AccessMedia(e.c, e.via)
-    [] e.op = "access" /\ e.a # "media" -> AccessAttr(e.c, e.a, e.via)
+    [] e.op = "access" /\ e.a = "render" -> AccessRender(e.c, e.via)
+    [] e.op = "access" /\ e.a \notin {"media", "render"} -> AccessAttr(e.c, e.a, e.via)
 
 Step == /\ tid <= Len(Traces) /\ phase = "step" /\ l <= Len(Events)
         /\ SpecAction(Ev)
@@ -54,12 +58,28 @@ Obs(e, t) == CASE t = "js" -> e.js [] t = "all" -> e.all [] t = "print" -> e.pri
 \* the clauses of the specification the observation of event e violates (short codes, so
 \* that a verdict line never wraps): F files = exactly the union, O each file once, R order,
 \* X unexpected css media type, S the abstract machine itself is off, E exception,
-\* C creation outcome, M Python's MRO differs from Mro(c), N nearest-class rule, L <pair>_file form
+\* C creation outcome, M Python's MRO differs from Mro(c), N nearest-class rule, L <pair>_file form,
+\* T / J / Y the rendered document carries another template / script / style than the nearest definition's
+RenderFailing(e) ==
+  LET a == ret.attr IN
+  IF a["template"].src = 0 THEN {}               \* no template anywhere: rendering is not determined here
+  ELSE IF e.exc THEN {"E.render"}
+  ELSE IF Content(a["template"].kind) # "text"  \* a blank document has no place for tags: nothing foreign in it
+  THEN (IF Range(e.rtpl) = {} THEN {} ELSE {"T.render"}) \cup
+       (IF Range(e.rjs) \subseteq Shipped(a["js"]) THEN {} ELSE {"J.render"}) \cup
+       (IF Range(e.rcss) \subseteq Shipped(a["css"]) THEN {} ELSE {"Y.render"})
+  ELSE (IF Range(e.rtpl) = Shipped(a["template"]) THEN {} ELSE {"T.render"}) \cup
+       (IF Range(e.rjs) = Shipped(a["js"]) THEN {} ELSE {"J.render"}) \cup
+       (IF Range(e.rcss) = Shipped(a["css"]) THEN {} ELSE {"Y.render"})
+ValueOK(e, want) ==
+  /\ e.val = want.val
+  /\ want.val # "empty" => (e.src = want.src /\ e.kind = want.kind)      \* "" has no class identity
 Failing(e) ==
   IF e.op = "create"
   THEN (IF e.out \in Creation(kase, e.c) THEN {}
         ELSE {"C." \o e.out \o "/" \o (CHOOSE x \in Creation(kase, e.c) : TRUE)}) \cup
        (IF e.out = "ok" /\ e.mro # Mro(kase, e.c).seq THEN {"M.mro"} ELSE {})
+  ELSE IF e.a = "render" THEN RenderFailing(e)
   ELSE IF e.exc THEN {"E." \o e.a}
   ELSE IF e.a = "media" THEN
        {"F." \o t : t \in {t \in Types : ~FilesOK(Obs(e, t), kase, e.c, t)}} \cup
@@ -68,8 +88,8 @@ Failing(e) ==
                                          /\ ~OrderOK(Obs(e, t), kase, e.c, t)}} \cup
        (IF e.other # 0 THEN {"X.css"} ELSE {}) \cup
        (IF ret.media # MediaVal(kase, e.c) THEN {"S.memo"} ELSE {})
-  ELSE LET want == ret.attr IN
-       (IF e.src # want.src \/ e.kind # want.kind THEN {"N." \o e.a} ELSE {}) \cup
+  ELSE LET want == Value(ret.attr) IN
+       (IF ~ValueOK(e, want) THEN {"N." \o e.a} ELSE {}) \cup
        (IF e.file # (IF want.kind = "file" THEN want.src ELSE 0) THEN {"L." \o e.a} ELSE {})
 
 \* Does the implementation model with deviations D predict what was observed at media event e
